@@ -2,6 +2,7 @@ SPECIFICATION Spec
 CONSTANTS
   Keys = {"k1", "k2"}
   Vals = {"v1", "v2"}
+  EnabledOps = {"storeSession", "saveIdentity", "deleteSession", "storePreKey", "removePreKey", "setAsSent", "setAllAsSent", "setSentEnds", "storeSignedPreKey", "removeSignedPreKey", "storeSenderKey"}
   MaxOps = 3
   ReplaceInOneTxn = FALSE
 VIEW View
